@@ -11,7 +11,7 @@
 
    Correspondence with the code (matrix_functions.py), in the code's order of checks:
      matrix_inverse_root          -> [matrix_inverse_root]
-       numel == 1 fast path       -> [scalar_root]      (no root validation there: root 0 -> ZeroDivisionError)
+       numel == 1 fast path       -> [scalar_root]      (negative entry shifted to 0; no root validation: root 0 -> ZeroDivisionError)
        len(shape) != 2 / not square -> [Raise ValueError]
        is_diagonal                -> [diagonal_root]    (root <= 0 -> ValueError)
        EigenConfig                -> [eigen_root]       (root <= 0 -> ValueError; enhance_stability)
@@ -78,10 +78,10 @@ Section Model.
   (* A + epsilon * I *)
   Definition ridge (n : nat) (A : mat F) (eps : F) : mat F := memo Op n (madd Op A (mscale Op eps (mid Op))).
 
-  (* ---- numel == 1:  (A + epsilon) ** (-1/root) ------------------------------------------- *)
+  (* ---- numel == 1:  (A - min(A, 0) + epsilon) ** (-1/root) --------------------------------- *)
   Definition scalar_root (A : mat F) (p : Z) (q : positive) (eps : F) : result F :=
     if (p =? 0)%Z then Raise ZeroDivisionError
-    else Ok (plain (fun _ _ => fpow Op (A 0 0 + eps) (expo p q))).
+    else Ok (plain (fun _ _ => fpow Op ((A 0 0 - fmin Op (A 0 0) zero) + eps) (expo p q))).
 
   (* ---- _matrix_inverse_root_diagonal ----------------------------------------------------- *)
   Definition diagonal_root (A : mat F) (p : Z) (q : positive) (eps : F) : result F :=
